@@ -127,8 +127,20 @@ func (f *decompressor) step() (err error) {
 		return io.EOF
 	}
 
-	if state.input == nil {
-		state.input, err = f.rBuf.Peek(f.rBuf.Size())
+	if state.input == nil && state.phase == phaseStreamEnd {
+		// the final block is decoded; only pending output is left to hand out,
+		// no further input is needed to report io.EOF
+		f.peekSize = 0
+	} else if state.input == nil {
+		// Wait only for the first byte that is not already held in the bit
+		// buffer, then take whatever the source has delivered so far: asking
+		// for a full buffer would block on input the decoder may not need.
+		_, err = f.rBuf.Peek(int(f.state.bitsLen/8) + 1)
+		if err == nil {
+			state.input, err = f.rBuf.Peek(f.rBuf.Buffered())
+		} else {
+			state.input, _ = f.rBuf.Peek(f.rBuf.Buffered())
+		}
 		f.peekSize = len(state.input)
 		if err != nil && err != bufio.ErrBufferFull && err != io.EOF {
 			return err
